@@ -63,9 +63,39 @@ package cache
 //@   ensures ret(cacheGet, 0, 0) != nil && !aftercall(cacheGet, 0, ret(timeNow, 0).ns < ret(cacheGet, 0, 0).expirationTime.ns) && lazyCacheEnabled ==> result_1 && calls(msgCopy) == 1 && result_0 == ret(msgCopy, 0) && calls(SetTTL) == 1 && arg(SetTTL, 0, 0) == result_0 && arg(SetTTL, 0, 1) == uint32(lazyTtl) && calls(SubtractTTL) == 0
 //@   ensures ret(cacheGet, 0, 0) != nil && !aftercall(cacheGet, 0, ret(timeNow, 0).ns < ret(cacheGet, 0, 0).expirationTime.ns) && !lazyCacheEnabled ==> result_0 == nil && !result_1 && calls(msgCopy) == 0
 
-//@ func copyNoOpt
-//@   nobody
+// copyNoOpt (C10, C15): the copy shares no mutable state with m — new message object,
+// new question array, new record array, every record a new object (dns.Copy) — has the
+// same header, questions, answer and authority records, and carries no OPT record.
+//@ spec func recCopied(a dns.RR, b dns.RR) bool = a != nil && a.tag == b.tag && hdrOf(a).Rrtype == hdrOf(b).Rrtype && hdrOf(a).Ttl == hdrOf(b).Ttl && hdrOf(a).Class == hdrOf(b).Class && hdrOf(a).Name == hdrOf(b).Name
+//@ spec func freshRec(a dns.RR) bool = a != nil && fresh(a.val) && fresh(hdrOf(a))
+//@ spec func noNil(s []dns.RR) bool = forall i int :: 0 <= i && i < len(s) ==> s[i] != nil
+//@ func copyNoOpt [C10, C15]
 //@   log copyNoOpt
-//@   modifies *
+//@   requires m != nil ==> noNil(m.Answer) && noNil(m.Ns) && noNil(m.Extra)
 //@   ensures (m == nil) == (result == nil)
-//@   ensures m != nil ==> fresh(result)
+//@   ensures m != nil ==> fresh(result) && result.MsgHdr == m.MsgHdr && result.Compress == m.Compress
+//@   ensures m != nil ==> len(result.Question) == len(m.Question) && (len(m.Question) > 0 ==> fresh(result.Question.ref)) && (forall i int :: 0 <= i && i < len(m.Question) ==> result.Question[i] == m.Question[i])
+//@   ensures m != nil ==> len(result.Answer) == len(m.Answer) && (forall i int :: 0 <= i && i < len(m.Answer) ==> freshRec(result.Answer[i]) && recCopied(result.Answer[i], m.Answer[i]))
+//@   ensures m != nil ==> len(result.Ns) == len(m.Ns) && (forall i int :: 0 <= i && i < len(m.Ns) ==> freshRec(result.Ns[i]) && recCopied(result.Ns[i], m.Ns[i]))
+//@   ensures m != nil ==> len(result.Extra) <= len(m.Extra) && (forall i int :: 0 <= i && i < len(result.Extra) ==> freshRec(result.Extra[i]) && hdrOf(result.Extra[i]).Rrtype != 41)
+//@   ensures m != nil ==> fresh(result.Answer.ref) && fresh(result.Ns.ref) && fresh(result.Extra.ref)
+//@   loop 0:
+//@     invariant 0 <= it0 && it0 <= len(m.Extra) && len(m.Extra) - it0 <= lenExtra && lenExtra <= len(m.Extra)
+//@   loop 1:
+//@     invariant m2 != nil && fresh(m2) && m2 != m && fresh(s.ref) && s.ref == m2.Answer.ref && s.ref == m2.Ns.ref && s.ref == m2.Extra.ref
+//@     invariant len(m2.Answer) == it1 && it1 <= len(m.Answer) && cap(m2.Answer) == len(m.Answer) && m2.Answer.off == 0
+//@     invariant len(m2.Ns) == 0 && cap(m2.Ns) == len(m.Ns) && m2.Ns.off == len(m.Answer) && len(m2.Extra) == 0 && m2.Extra.off == len(m.Answer) + len(m.Ns) && cap(m2.Extra) == lenExtra && 0 <= lenExtra && lenExtra <= len(m.Extra)
+//@     invariant forall i int :: 0 <= i && i < it1 ==> freshRec(m2.Answer[i]) && recCopied(m2.Answer[i], m.Answer[i])
+//@   loop 2:
+//@     invariant m2 != nil && fresh(m2) && m2 != m && fresh(s.ref) && s.ref == m2.Answer.ref && s.ref == m2.Ns.ref && s.ref == m2.Extra.ref
+//@     invariant len(m2.Answer) == len(m.Answer) && m2.Answer.off == 0
+//@     invariant len(m2.Ns) == it2 && it2 <= len(m.Ns) && cap(m2.Ns) == len(m.Ns) && m2.Ns.off == len(m.Answer) && len(m2.Extra) == 0 && m2.Extra.off == len(m.Answer) + len(m.Ns) && cap(m2.Extra) == lenExtra && 0 <= lenExtra && lenExtra <= len(m.Extra)
+//@     invariant forall i int :: 0 <= i && i < len(m.Answer) ==> freshRec(m2.Answer[i]) && recCopied(m2.Answer[i], m.Answer[i])
+//@     invariant forall i int :: 0 <= i && i < it2 ==> freshRec(m2.Ns[i]) && recCopied(m2.Ns[i], m.Ns[i])
+//@   loop 3:
+//@     invariant m2 != nil && fresh(m2) && m2 != m && fresh(s.ref) && s.ref == m2.Answer.ref && s.ref == m2.Ns.ref && fresh(m2.Extra.ref)
+//@     invariant len(m2.Answer) == len(m.Answer) && m2.Answer.off == 0 && len(m2.Ns) == len(m.Ns) && m2.Ns.off == len(m.Answer)
+//@     invariant 0 <= it3 && it3 <= len(m.Extra) && len(m2.Extra) <= it3 && (m2.Extra.ref == s.ref ==> m2.Extra.off == len(m.Answer) + len(m.Ns))
+//@     invariant forall i int :: 0 <= i && i < len(m.Answer) ==> freshRec(m2.Answer[i]) && recCopied(m2.Answer[i], m.Answer[i])
+//@     invariant forall i int :: 0 <= i && i < len(m.Ns) ==> freshRec(m2.Ns[i]) && recCopied(m2.Ns[i], m.Ns[i])
+//@     invariant forall i int :: 0 <= i && i < len(m2.Extra) ==> freshRec(m2.Extra[i]) && hdrOf(m2.Extra[i]).Rrtype != 41
